@@ -89,7 +89,55 @@ fn n_modes() -> u64 {
     xform::STAGE_MODES.len() as u64
 }
 fn n_fixed() -> u64 {
-    n_main() + NPOW + lifts().len() as u64 + n_lift_shapes()
+    n_main() + NPOW + lifts().len() as u64 + n_lift_shapes() + n_pipes()
+}
+/// Placeholder pipes (`a ||> f(_, b)` is sugar for a macro-stage lambda with a quoted body): every expression built from
+/// two atoms with the call shapes g1(_), f2(_, A), f2(A, _) where A is an atom or again such a pipe (nesting depth 2), and
+/// every chain `P ||> call`; each plain and inside a quotation that is spliced back. (sugar, hand expansion)
+fn pipe_exprs() -> &'static Vec<(String, String)> {
+    static P: OnceLock<Vec<(String, String)>> = OnceLock::new();
+    P.get_or_init(|| {
+        let atoms = ["x", "5.0"];
+        // depth 1
+        let mut d1: Vec<(String, String)> = vec![];
+        for a in atoms {
+            d1.push((format!("{a} ||> g1(_)"), format!("g1({a})")));
+            for b in atoms {
+                d1.push((format!("{a} ||> f2(_, {b})"), format!("f2({a}, {b})")));
+                d1.push((format!("{a} ||> f2({b}, _)"), format!("f2({b}, {a})")));
+            }
+        }
+        let mut v = d1.clone();
+        // a pipe in argument position of the partially applied call
+        for a in atoms {
+            for (s, e) in &d1 {
+                v.push((format!("{a} ||> f2(_, {s})"), format!("f2({a}, {e})")));
+                v.push((format!("{a} ||> f2({s}, _)"), format!("f2({e}, {a})")));
+            }
+        }
+        // chains: the piped value is itself a pipe
+        for (s, e) in &d1 {
+            v.push((format!("{s} ||> g1(_)"), format!("g1({e})")));
+            for b in atoms {
+                v.push((format!("{s} ||> f2(_, {b})"), format!("f2({e}, {b})")));
+                v.push((format!("{s} ||> f2({b}, _)"), format!("f2({b}, {e})")));
+            }
+        }
+        // three levels in argument position
+        v.push(("x ||> f2(_, 2.0 ||> f2(_, 3.0 ||> g1(_)))".into(), "f2(x, f2(2.0, g1(3.0)))".into()));
+        v.push(("x ||> f2(2.0 ||> f2(3.0 ||> g1(_), _), _)".into(), "f2(f2(g1(3.0), 2.0), x)".into()));
+        v
+    })
+}
+fn n_pipes() -> u64 {
+    pipe_exprs().len() as u64 * 2
+}
+fn build_pipe(k: u64) -> Case {
+    let (s, e) = &pipe_exprs()[(k / 2) as usize];
+    let defs = "fn g1(a) {\n  a * 3.0 + 1.0\n}\nfn f2(a, b) {\n  a * 10.0 + b\n}\n";
+    let staged = if k % 2 == 0 { format!("{defs}fn dsp(x) {{\n  {s}\n}}\n") } else { format!("{defs}fn dsp(x) {{\n  $(`({s}))\n}}\n") };
+    let expanded = format!("{defs}fn dsp(x) {{\n  {e}\n}}\n");
+    Case::Pair { staged, expanded, what: format!("placeholder pipe{}: {s}", if k % 2 == 0 { "" } else { " inside a quotation" }) }
 }
 fn n_family(tier: Tier) -> u64 {
     space(tier).n() * NODE_CAP * n_modes()
@@ -141,6 +189,9 @@ fn build(idx: u64) -> Case {
         let staged = format!("{MACRO_DEFS}fn dsp(x) {{\n  genpower!({k}.0)(x)\n}}\n");
         let expanded = format!("fn dsp(x) {{\n  {prod}\n}}\n");
         return Case::Pair { staged, expanded, what: format!("code-building recursion genpower({k})") };
+    }
+    if k >= NPOW + lifts().len() as u64 + n_lift_shapes() {
+        return build_pipe(k - NPOW - lifts().len() as u64 - n_lift_shapes());
     }
     if k >= NPOW + lifts().len() as u64 {
         return build_lift_shape(k - NPOW - lifts().len() as u64);
